@@ -1,5 +1,7 @@
 """ctypes access to a built shim.  Thin and explicit: every helper maps to one API call."""
 import ctypes
+import os
+import weakref
 from ctypes import c_void_p, c_char_p, c_size_t, c_int, c_uint, c_uint64, c_int64, byref, create_string_buffer, POINTER, cast
 
 from . import build as B
@@ -16,8 +18,28 @@ ECDH_HASHFN = ctypes.CFUNCTYPE(c_int, c_void_p, c_void_p, c_void_p, c_void_p)
 ELLSWIFT_HASHFN = ctypes.CFUNCTYPE(c_int, c_void_p, c_void_p, c_void_p, c_void_p, c_void_p)
 
 
+_MALLOC_BUF = os.environ.get("VF_MALLOC_BUF") == "1"
+_libc = None
+
+
 def buf(n, init=None):
-    b = create_string_buffer(n)
+    """zero-initialised byte buffer of exactly n bytes.  In sanitizer workers it is a libc-malloc block (ASan red zones on
+    both sides: over-reads / overruns by the library are reported); ctypes' own arrays come from pymalloc or live inline
+    in the Python object and have no red zones."""
+    global _libc
+    if _MALLOC_BUF and n > 0:
+        if _libc is None:
+            _libc = ctypes.CDLL(None)
+            _libc.malloc.restype = c_void_p
+            _libc.malloc.argtypes = [c_size_t]
+            _libc.free.argtypes = [c_void_p]
+            _libc.free.restype = None
+        p = _libc.malloc(n)
+        ctypes.memset(p, 0, n)
+        b = (ctypes.c_char * n).from_address(p)
+        weakref.finalize(b, _libc.free, p)
+    else:
+        b = create_string_buffer(n)
     if init is not None:
         assert len(init) <= n
         ctypes.memmove(b, bytes(init), len(init))
